@@ -47,6 +47,7 @@ def _pick(rows, i, j):
 # ----------------------------------------------------------------------------- indexing ---
 
 def getitem(I, obj, idx):
+    from .libpd import series_getitem, indexer_getitem, frame_getitem
     if isinstance(obj, SArr):
         return arr_getitem(I, obj, idx)
     if isinstance(obj, SSeries):
@@ -140,15 +141,24 @@ def filter_arr(I, a, mask):
     n3 = to_z3(n)
     ctx.assume(z3.And(m >= 0, m <= n3))
     ctx.assume(S.ForAll(lambda j: And(pos(j) >= 0, pos(j) < n3, mask.fn(pos(j))), 0, m, "j"))
-    ctx.assume(S.ForAll(lambda j: pos(j) < pos(j + 1), 0, simp(m - 1), "j"))
+    ctx.assume(S.ForAll2(lambda j, j2: pos(j) < pos(j2), 0, m))
     ctx.assume(S.ForAll(lambda i: Implies(mask.fn(i), And(inv(i) >= 0, inv(i) < m, pos(inv(i)) == i)), 0, n, "i"))
     # derived facts (consequences of the axioms above that need induction)
     ctx.assume(Implies(alltrue, And(m == n3, S.ForAll(lambda j: pos(j) == j, 0, m, "j"))))
     ctx.assume(Implies(allfalse, m == 0))
-    sufclosed = S.ForAll(lambda i: Implies(mask.fn(i), mask.fn(i + 1)), 0, simp(n3 - 1))
-    preclosed = S.ForAll(lambda i: Implies(mask.fn(i + 1), mask.fn(i)), 0, simp(n3 - 1))
+    sufclosed = S.ForAll2(lambda i, j: Implies(mask.fn(i), mask.fn(j)), 0, n)
+    preclosed = S.ForAll2(lambda i, j: Implies(mask.fn(j), mask.fn(i)), 0, n)
     ctx.assume(Implies(sufclosed, S.ForAll(lambda j: pos(j) == n3 - m + j, 0, m, "j")))
     ctx.assume(Implies(preclosed, S.ForAll(lambda j: pos(j) == j, 0, m, "j")))
+    # nothing is selected before the first / after the last selected position
+    ctx.assume(Implies(m > 0, S.ForAll(lambda i: Implies(to_z3(i) < pos(0), Not(mask.fn(i))), 0, n, "i")))
+    ctx.assume(Implies(m > 0, S.ForAll(lambda i: Implies(to_z3(i) > pos(m - 1), Not(mask.fn(i))), 0, n, "i")))
+    # convex (interval) masks select a contiguous block
+    i_, j_, k_ = z3.Int(ctx.fresh_name("$ci")), z3.Int(ctx.fresh_name("$cj")), z3.Int(ctx.fresh_name("$ck"))
+    ctx.in_quant += 1
+    convex = z3.ForAll([i_, j_, k_], z3.Implies(z3.And(0 <= i_, i_ < j_, j_ < k_, k_ < n3, to_z3(mask.fn(i_)), to_z3(mask.fn(k_))), to_z3(mask.fn(j_))))
+    ctx.in_quant -= 1
+    ctx.assume(Implies(convex, S.ForAll(lambda j: pos(j) == pos(0) + j, 0, m, "j")))
     ctx.assume(Implies(sufclosed, Implies(n3 - m - 1 >= 0, Not(mask.fn(n3 - m - 1)))))
     ctx.assume(Implies(preclosed, Implies(m < n3, Not(mask.fn(m)))))
     return SArr((m,), lambda j: a.fn(pos(to_z3(j))), a.dtype, a.kind)
@@ -213,6 +223,7 @@ def nd_getitem(I, a, items):
 def setitem(I, obj, idx, v, env, target):
     """array stores rebind the variable / attribute that holds the array (functional update)."""
     import ast
+    from .libpd import indexer_store, pandas_store
     if isinstance(obj, SArr):
         new = arr_store(I, obj, idx, v)
         _rebind(I, target.value, new, env, obj)
@@ -391,7 +402,9 @@ def sort_arr(I, a):
     n = a.len
     if not is_sym(n) and n <= 1:
         return a
-    issorted = S.ForAll(lambda i: ops.scalar_cmp("LtE", a.fn(i), a.fn(i + 1)), 0, simp(to_z3(n) - 1))
+    if getattr(a, "_sorted", None) is not None and a._sorted[0] is ctx:
+        return a._sorted[1]
+    issorted = S.ForAll2(lambda i, j: ops.scalar_cmp("LtE", a.fn(i), a.fn(j)), 0, n)
     if ctx.entails(issorted):
         return a
     USED.add("sort: result is sorted, a permutation of the input (perm bijective), identity on sorted input")
@@ -400,15 +413,16 @@ def sort_arr(I, a):
     perm = ctx.fresh_fun("perm", z3.IntSort(), z3.IntSort())
     pinv = ctx.fresh_fun("perminv", z3.IntSort(), z3.IntSort())
     n3 = to_z3(n)
-    ctx.assume(S.ForAll(lambda i: res(i) <= res(i + 1), 0, simp(n3 - 1)))
+    ctx.assume(S.ForAll2(lambda i, j: res(i) <= res(j), 0, n))
     ctx.assume(S.ForAll(lambda i: And(perm(i) >= 0, perm(i) < n3, res(i) == to_z3(a.fn(perm(i))), pinv(perm(i)) == i), 0, n))
-    ctx.assume(S.ForAll(lambda i: And(pinv(i) >= 0, pinv(i) < n3, perm(pinv(i)) == i), 0, n))
+    ctx.assume(S.ForAll(lambda i: And(pinv(i) >= 0, pinv(i) < n3, perm(pinv(i)) == i, res(pinv(i)) == to_z3(a.fn(i))), 0, n))
     ctx.assume(Implies(issorted, S.ForAll(lambda i: res(i) == to_z3(a.fn(i)), 0, n)))
     # distinctness is preserved by a permutation: strict version
-    distinct = S.ForAll(lambda i: S.ForAll(lambda j: Implies(i != j, to_z3(a.fn(i)) != to_z3(a.fn(j))), 0, n, "j"), 0, n)
-    ctx.assume(Implies(distinct, S.ForAll(lambda i: res(i) < res(i + 1), 0, simp(n3 - 1))))
+    distinct = S.ForAll2(lambda i, j: to_z3(a.fn(i)) != to_z3(a.fn(j)), 0, n)
+    ctx.assume(Implies(distinct, S.ForAll2(lambda i, j: res(i) < res(j), 0, n)))
     out = SArr((n,), lambda i: res(to_z3(i)), a.dtype, a.kind)
     out.sorted_of = a
+    a._sorted = (ctx, out)
     return out
 
 
@@ -627,7 +641,7 @@ def arr_nunique(I, recv, args, kwargs):
     if not is_sym(n) and n <= 1:
         return n
     u = ctx.fresh_int("nunique")
-    distinct = S.ForAll(lambda i: S.ForAll(lambda j: Implies(i != j, to_z3(a.fn(i)) != to_z3(a.fn(j))), 0, n, "j"), 0, n)
+    distinct = S.ForAll2(lambda i, j: to_z3(a.fn(i)) != to_z3(a.fn(j)), 0, n)
     ctx.assume(z3.And(u >= 0, u <= to_z3(n)))
     ctx.assume((u == to_z3(n)) == to_z3(distinct))
     USED.add("Index.nunique() == len  iff  elements pairwise distinct")
@@ -721,3 +735,41 @@ def pd_index(I, args, kwargs):
 
 
 from . import libpd  # noqa: E402,F401
+
+
+# ----------------------------------------------------------------------------- dunder methods of index / array
+# (ForecastingHorizon delegates these to its wrapped pandas index)
+
+def _mk_dunder(opname, cmp=False, reflected=False):
+    def f(I, recv, args, kwargs):
+        o = args[0]
+        if cmp:
+            return I.compare(opname, recv, o)
+        return I.binop(opname, o, recv) if reflected else I.binop(opname, recv, o)
+    return f
+
+
+for _d, _op in (("add", "Add"), ("sub", "Sub"), ("mul", "Mult"), ("div", "Div"), ("truediv", "Div"), ("pow", "Pow"),
+                ("mod", "Mod"), ("floordiv", "FloorDiv")):
+    for _kind in ("arr", "series"):
+        from .libmodels import METHODS as _M
+        _M[(_kind, f"__{_d}__")] = _mk_dunder(_op)
+        _M[(_kind, f"__r{_d}__")] = _mk_dunder(_op, reflected=True)
+for _d, _op in (("gt", "Gt"), ("ge", "GtE"), ("lt", "Lt"), ("le", "LtE"), ("eq", "Eq"), ("ne", "NotEq")):
+    for _kind in ("arr", "series"):
+        _M[(_kind, f"__{_d}__")] = _mk_dunder(_op, cmp=True)
+
+
+@method("arr", "__len__")
+def arr_len(I, recv, args, kwargs):
+    return recv.len
+
+
+@method("arr", "__getitem__")
+def arr_getitem_m(I, recv, args, kwargs):
+    return arr_getitem(I, recv, args[0])
+
+
+@method("arr", "__divmod__", "__rdivmod__")
+def arr_divmod(I, recv, args, kwargs):
+    raise Undecided("divmod on index")
